@@ -21,7 +21,7 @@ from hyprun import CaseResult
 make_context = ep.make_context
 close_context = ep.close_context
 V = ep2.V
-HANG_S = 60.0
+HANG_S = dm.IO_TIMEOUT
 
 
 # ===========================================================================
@@ -547,8 +547,11 @@ def run_c17(confs, pre, probes, workdir, reload_):
                 out = [b.decode("latin-1") for b in out]
                 spec.feed_output(1000 + i, out)
                 steps.append((line, masked(out)))
-        except (dm.DaemonDied, dm.DaemonHang):
+        except dm.DaemonDied:
             return None, "died"
+        except dm.DaemonHang:
+            d.kill()
+            return None, "stopped answering"
         rc, rest, err = d.finish()
         mem, _, _ = dm.classify_stderr(err)
         if mem:
@@ -579,7 +582,7 @@ def eval_c17(case, ctx):
     shutil.rmtree(wd, ignore_errors=True)
     b, errb = run_c17(case["confs"], [], case["probes"], wd, False)
     if b is None:
-        res.inconclusive = "sut_died"      # the fresh daemon itself fails on this probe traffic: not a reload matter
+        res.inconclusive = "sut_hang" if errb == "stopped answering" else "sut_died"      # the fresh daemon itself fails on this probe traffic: not a reload matter
         return res
     if a is None:
         # a daemon freshly started on the new file serves the probes, the reloaded one died or
